@@ -62,6 +62,8 @@ struct Elem {
     virtual void actionScale(FCase&, const State&, const Ref* r, double& aF, double& aM) { if (r) { aF = r->aF; aM = r->aM; } }
     virtual double fdStepFor(FCase&, const State&) { return fdStep; }
     virtual bool yankOutPresent(FCase&, const State&) { return false; }
+    // C(q) in PE = C * x^(5/2) and the deformation x, for elements whose energy coefficient depends on where the contact is
+    virtual bool shapeCoefficient(FCase&, State& /*w, realized to Position*/, double& /*C*/, double& /*x*/) { return false; }
     virtual bool pureTwoBody() { return true; }   // false when a third body takes part (cable via point)
     virtual Json describe() { return Json::obj(); }
 };
